@@ -300,10 +300,11 @@ PROPS['C19'] = {
                    'the constant selected by the values of the arguments (Shannon expansion, induction over the argument list, recursion proved terminating), and (ii) '
                    'flatten_fn_update returns a function over the original variables and constant inputs only (is_flat) that evaluates exactly like the original one with every '
                    'uninterpreted f(args) read as the constant named f_<values of the flattened args> (fflat), constants, variables, negations and binary operators being reproduced; '
-                   'the parameter table only grows and existing parameters keep their names.'),
+                   'the parameter table only grows and existing parameters keep their names. Lemmas: the naming scheme name_ + bits is uniquely decodable (lemma_decode); every choice of the '
+                   'constants is an interpretation of the original uninterpreted functions (lemma_constants_are_instantiations) and every interpretation is matched by a choice of the constants '
+                   '(lemma_instantiations_are_constants) -- "the function ranges over exactly the instantiations".'),
     'level_note': ('PARTIAL. Not under contract: flatten_update_function (implicit update functions: regulators -> mk_var -> explode_function; skipping of regulator-free variables), main, '
-                   'the bnet printer / aeon parser of the library; the final step from "evaluates like fflat" to "ranges over exactly the instantiations" needs the injectivity of the naming '
-                   'scheme (name_ + bits is uniquely decodable) and is not a machine-checked lemma. Trusted: the model of FnUpdate / BooleanNetwork in prelude/conv_model.rs '
+                   'the bnet printer / aeon parser of the library. Trusted: the model of FnUpdate / BooleanNetwork in prelude/conv_model.rs '
                    '(constructors of the library, smart constructors specified through evaluation, parameter table as ghost functions). Known finding D11: add_parameter fails when a generated '
                    'name is the name of a network VARIABLE and the converter unwraps the error (panic); D12 (nested uninterpreted functions made the converter panic) was found by this '
                    'contract and repaired.'),
